@@ -416,7 +416,9 @@ def process_extract(gen, sec, vu_path):
             rule = 'R5 idiom'
             optional = False
             for o in opts.split():
-                if o.startswith('count='):
+                if o == 'count=*':
+                    count = None
+                elif o.startswith('count='):
                     count = int(o[6:])
                 elif o.startswith('rule='):
                     rule = o[5:]
@@ -425,8 +427,8 @@ def process_extract(gen, sec, vu_path):
             rep = '\n'.join(l for _, l in d['text'])
             ms = [m for m in re.finditer(rx, text, re.S)]
             ms = [m for m in ms if m.end() > m.start() and mask[m.start()] == text[m.start()]]   # not inside comments/strings
-            if len(ms) != count and not (optional and len(ms) == 0):
-                raise UnitError('lost anchor: %s:%d: /%s/ matches %d times (expected %d) in %s' % (vu_path, d['line'], rx, len(ms), count, item_name))
+            if ((count is None and len(ms) == 0) or (count is not None and len(ms) != count)) and not (optional and len(ms) == 0):
+                raise UnitError('lost anchor: %s:%d: /%s/ matches %d times (expected %s) in %s' % (vu_path, d['line'], rx, len(ms), count, item_name))
             for m in ms:
                 new = m.expand(rep)
                 edits.append((m.start(), m.end(), new, 'gen', rule))
